@@ -456,6 +456,50 @@ def flatten(tree):
     return done
 
 
+def expand_element_attributes(tree):
+    """lxml: attributes handed to the element factory are attributes set right after creation, in keyword order --
+        x = etree.SubElement(p, 'tag', a=1, b=2)   reads   x = etree.SubElement(p, 'tag'); x.set('a', 1); x.set('b', 2)
+    and  x.attrib.update(d)  reads  for k, v in d.items(): x.set(k, v).  Only for plain-name targets at statement level."""
+    done = 0
+    FACT = ('etree.Element', 'etree.SubElement', 'Element', 'SubElement', 'ET.Element', 'ET.SubElement')
+
+    def src_(n):
+        try:
+            return ast.unparse(n)
+        except Exception:
+            return ''
+    for fn in [n for n in ast.walk(tree) if isinstance(n, FUNCS)]:
+        for blk, i, st in _own_statements(fn):
+            if isinstance(st, ast.Assign) and len(st.targets) == 1 and isinstance(st.targets[0], ast.Name) and isinstance(st.value, ast.Call) \
+                    and src_(st.value.func) in FACT and st.value.keywords and all(k.arg is not None and k.arg not in ('attrib', 'nsmap') for k in st.value.keywords):
+                name = st.targets[0].id
+                sets = []
+                for k in st.value.keywords:
+                    c = ast.Expr(value=ast.Call(func=ast.Attribute(value=ast.Name(id=name, ctx=ast.Load()), attr='set', ctx=ast.Load()),
+                                                args=[ast.Constant(value=k.arg), k.value], keywords=[]))
+                    ast.copy_location(c, st)
+                    ast.fix_missing_locations(c)
+                    c.lineno = c.end_lineno = getattr(k.value, 'lineno', st.lineno)
+                    sets.append(c)
+                st.value.keywords = []
+                pos = blk.index(st)
+                blk[pos + 1:pos + 1] = sets
+                done += 1
+            elif isinstance(st, ast.Expr) and isinstance(st.value, ast.Call) and isinstance(st.value.func, ast.Attribute) and st.value.func.attr == 'update' \
+                    and isinstance(st.value.func.value, ast.Attribute) and st.value.func.value.attr == 'attrib' and isinstance(st.value.func.value.value, ast.Name) \
+                    and len(st.value.args) == 1 and not st.value.keywords and isinstance(st.value.args[0], ast.Name):
+                x, d = st.value.func.value.value.id, st.value.args[0].id
+                loop = ast.parse('for k, v in %s.items():\n    %s.set(k, v)' % (d, x)).body[0]
+                for n_ in ast.walk(loop):
+                    if hasattr(n_, 'lineno'):
+                        n_.lineno = n_.end_lineno = st.lineno
+                blk[blk.index(st)] = loop
+                done += 1
+    if done:
+        _link(tree)
+    return done
+
+
 def inline_generators(tree, resolve):
     """`for <targets> in gen(<names>): BODY` over a generator of the package whose body is one loop nest with a single
     `yield <tuple or record of its loop variables>` in the innermost loop reads as that loop nest with BODY in place of
